@@ -53,6 +53,9 @@ claimed = {
  "C19": dict(level="translation_validation", text="print -> re-lex -> re-parse -> re-analyse -> run inside one symbolic path for both printers on a 52-program corpus with unconstrained host inputs, a string literal with solver-variable content, and Optimize(p) vs p on the VM; outputs/outcomes compared as SMT terms.",
              note="Corpus programs (not all programs); string literal content <= 2 (quick) / 3 (thorough) ASCII runes; numeric literal text, comments, impl blocks / annotations / imports in printed form are outside; optimiser differential on the corpus plus the nesting family depth 1 / 2. Trusted: go/ssa, gosym, z3.",
              technique="differential bounded symbolic execution (print/re-parse and optimiser in/out) + SMT (z3)", design="§2 C19"),
+ "C20": dict(level="translation_validation", text="The fuzzer's Transformer is executed symbolically with math/rand replaced by fork variables (bounded number of non-default draws), the variant is printed, re-analysed and run on the VM next to the original in the same path with unconstrained host inputs; output equality is decided by the solver. Counterexamples are replayed natively with a scripted rand.Source.",
+             note="10 programs in the stated class; 1 pass with <= 1 non-default draw per path (quick), 2 passes within a path budget (thorough); multiplication right operands assumed 0..3; the literal rewrites use the programs' small literals (the symbolic-literal tree-level check of DESIGN §2 C20(ii) is not built); float (v*u)/u identities are only exercised on constants. Trusted: go/ssa, gosym (rand model), z3.",
+             technique="differential bounded symbolic execution with random draws as fork variables + SMT (z3)", design="§2 C20"),
  "C05": dict(level="other", text="Bounded symbolic execution of lexer (and parser/analyzer as they are added) with Go run-time panics and step-bound overruns as path outcomes; within the stated bounds no input makes the code panic or fail to make progress.",
              note="Lexer step totality/progress on windows of K runes (quick 3 / thorough 5); Parser.Parse over every sequence of <= L tokens with symbolic kinds and an optional (sticky or consumed) lexer error, L = 3 quick / 5 thorough, step bound 300k as termination obligation (token kind formatting stubbed). Analyzer totality on edited programs: see evidence. 64 KiB / depth-1000 inputs are not executed (outside). Trusted: go/ssa, gosym, z3.",
              technique="bounded symbolic execution (go/ssa) + SMT (z3), panic/bound outcomes", design="§2 C05"),
